@@ -37,9 +37,26 @@
 //! typed key is down at the OS; whether its repeats are forwarded, and how many backspaces are due
 //! when they were, is not decided by the statement: counted, and the backspace count is not judged
 //! for a typing in which a repeat of a character key was forwarded.
+//!
+//! Echo family (c12_echo.rs; general-family tables, sldr and sequence-action leaders, all three
+//! input modes). The tables are typed once more with virtual keys whose own output contains keys of
+//! the sequence: `(macro <witness> k1 .. kn)` (every character key of the sequence), `(macro k
+//! <witness>)`, `(macro <witness> 15 k)`, the bare key `k`, `(multi <witness> k)`, k = the last
+//! character key listed (3 in 4) or any other. The typing is complete, and the keys still down
+//! after the completing press stay down for 0 / 1 / 2 / 3 / 6 / 12 / 30 / 60 ticks (an ordinary
+//! keystroke lasts tens of ms), in tables without O-(..) groups half of the time with roll-over (a
+//! character key is released only after the next key was pressed). Judged at the OS: the watched
+//! keys (all witnesses, all character keys) pressed after the tick that consumed the completing
+//! press and before the probe key are exactly what one tap of the virtual key writes (macros: in
+//! that order), each is released again before the probe, the hidden modes pressed no typed key up
+//! to completion, visible-backspaced sent one backspace per character, the probe key is output
+//! once and sequence mode is off at the end. Counters record how often a typed key was written by
+//! the action while that very key was physically down.
 
 #[path = "c12_model.rs"]
 mod model;
+#[path = "c12_echo.rs"]
+mod echo;
 
 use crate::core::rng::Rng;
 use crate::core::sim::{code_name, osc, render_hist, Ev, Out, OutKind, Sim};
@@ -1168,9 +1185,31 @@ impl Check for C12Check {
         };
         let ord_cap = ctx.tier.sel(8, 24);
         let mut rrng = Rng::for_case(if fixed { 0x5eed } else { ctx.seed }, "C12", "rep", idx);
+        // echo family (own random stream: the scenarios above are the same with and without it)
+        let mut erng = Rng::for_case(if fixed { 0x5eed } else { ctx.seed }, "C12", "echo", idx);
         for (mode, leader) in combos {
             let timeout = *rng.pick(&[12u64, 25]);
             let cfg = config_text(&table, mode, leader, timeout);
+            // the same table with virtual keys whose output contains typed keys; not with
+            // sequence-always-on, where the virtual key's output would itself be sequence input
+            let echo_cfgs: Vec<(echo::EchoTable, String)> = if leader == Leader::AlwaysOn {
+                vec![]
+            } else {
+                let kinds: Vec<echo::EchoKind> = if fixed { echo::ECHO_KINDS.to_vec() } else { vec![echo::ECHO_KINDS[*erng.pick(&[0usize, 1, 2, 0, 1, 2, 3, 4])]] };
+                kinds
+                    .into_iter()
+                    .filter_map(|k| {
+                        echo::echo_table(&table, k, &mut erng).map(|et| {
+                            let c = echo::echo_config(&cfg, &table, &et);
+                            (et, c)
+                        })
+                    })
+                    .collect()
+            };
+            for (et, _) in &echo_cfgs {
+                out.inc("echo_configs");
+                out.tag(format!("echo:{}:{}:{}:{}", et.kind.name(), mode.name(), leader.name(), table.shape()));
+            }
             if ctx.verbose {
                 eprintln!("--- {} / {} / T={timeout}\n{cfg}", mode.name(), leader.name());
             }
@@ -1224,6 +1263,21 @@ impl Check for C12Check {
                         let r = rep_scenarios(&st, None, leader, timeout, oi < 2 || rrng.chance(1, 3), oi < 2, &mut rrng);
                         out.count("scenarios_with_repeat_events", r.len() as u64);
                         scs.extend(r);
+                        // echo family: complete typings, the completing key (and, rolled over, the
+                        // key before a press) still down while the virtual key writes typed keys
+                        if oi < 2 {
+                            for (et, ecfg) in &echo_cfgs {
+                                for long in [true, false] {
+                                    // a final O-(..) group that another sequence also begins with is only decided
+                                    // when its keys are released: not held beyond a few ticks
+                                    let hold = echo::pick_hold(&mut erng, long, matches!(ord.last(), Some(El::Ov(_))));
+                                    let ro = !table.has_overlap_groups() && erng.coin();
+                                    let esc = echo::build_echo(&st, leader, hold, ro, echo::settle_for(et, si), &mut erng);
+                                    out.inc("scenarios");
+                                    echo::run_and_judge_echo(&mut out, ctx.verbose, &table, ecfg, mode, leader, et, si, ord, &esc);
+                                }
+                            }
+                        }
                     }
                     for sc in &scs {
                         out.inc("scenarios");
@@ -1260,7 +1314,7 @@ impl Check for C12Check {
         out
     }
     fn rule(&self) -> String {
-        "two case families. General family (5 of 6 generated cases): case = 12 generated defseq tables (2-4 sequences of 1-4 elements over keys a-f: plain keys, S-/C-/A- chorded keys and groups, O-(..) groups of 2-6 keys; about a third deliberately derived from another sequence of the table as prefix / extension / sub- or super-group) judged by the parser-half oracle; the first accepted table is then typed under 2 of the 8 (input mode x leader) combinations (all 8 for the fixed tables that are the same for every seed (38 cases): the guide's examples, the repository's own overlap table, the known-finding witnesses): every sequence in every permitted ordering (capped at 8 quick / 24 thorough per sequence), with overlap groups released before the next key and held through it; every proper press-prefix followed by a key that occurs in no sequence; one inter-press position per ordering stretched to T-1 / T / T+1. Modifier family (every 6th generated case + 13 fixed tables typed under all 8 combinations x modcancel absent/yes/no): case = 8 generated tables of 1-4 sequences of 1-4(5) members over plain keys a-g, bare modifier keys (lsft lctl lalt lmet ralt, rarely rsft rctl rmet; more likely as first member) and S-/C-/A- chorded keys and groups, two fifths derived from another sequence (chord respelled with the bare key and back, a modifier put in front, same beginning / extension, modifiers dropped), all judged by the parser-half oracle; the first accepted table is typed under 2 (mode, leader) combinations with sequence-backtrack-modcancel absent / yes and once more with no: every sequence canonically (bare modifier tapped), with every bare modifier kept down to the end, with single bare modifiers kept down over the next 1-2 members, with the modifier of one chorded member released only after the next member, with an unrelated modifier pressed before the leader and released after the first press / a random press / everything, and both together; each typing the documented rule decides is run complete, cut after every (first two typings) or one random press + foreign key, and with one position stretched to T-1 / T / T+1; typings that match nothing under the configured setting must fire no virtual key. OS auto-repeat events (both families, from their own random stream so that the scenarios above are the same with and without them): each of the first two typings / orderings of a sequence (the first three in the modifier family; one in three of the others) is typed once more completely with one typed press other than the completing one (even odds: the last such press, else any) kept down and repeated 1-3 times starting 0-2 ticks after the press was consumed, 1-2 ticks apart, before anything else is typed, and in two of three cases one stray repeat event just before a random press: of a key that is never pressed, of the released leader key, of a typed key already released again, or of the unrelated modifier held since before the leader; the first two typings also get one failing variant with repeats (even odds: cut after a random press >= 1 + foreign key, or one position stretched to T-1 / T / T+1; the held key is then the one down during the silence half of the time). A repeat scenario whose events do not fit the prescribed schedule (every press and the foreign key consumed < T after the previous press, repeats of the held key over >= 2 ticks before the timeout could elapse) is rebuilt with minimal gaps or dropped. Not added for orderings in the two known overlap-group structures nor for sequences with a right-hand modifier member. Non-trivial = table reached the parser; distinct = (accept/reject, table shape) and (mode, leader, [modcancel,] table shape) typed.".into()
+        "two case families. General family (5 of 6 generated cases): case = 12 generated defseq tables (2-4 sequences of 1-4 elements over keys a-f: plain keys, S-/C-/A- chorded keys and groups, O-(..) groups of 2-6 keys; about a third deliberately derived from another sequence of the table as prefix / extension / sub- or super-group) judged by the parser-half oracle; the first accepted table is then typed under 2 of the 8 (input mode x leader) combinations (all 8 for the fixed tables that are the same for every seed (38 cases): the guide's examples, the repository's own overlap table, the known-finding witnesses): every sequence in every permitted ordering (capped at 8 quick / 24 thorough per sequence), with overlap groups released before the next key and held through it; every proper press-prefix followed by a key that occurs in no sequence; one inter-press position per ordering stretched to T-1 / T / T+1. Modifier family (every 6th generated case + 13 fixed tables typed under all 8 combinations x modcancel absent/yes/no): case = 8 generated tables of 1-4 sequences of 1-4(5) members over plain keys a-g, bare modifier keys (lsft lctl lalt lmet ralt, rarely rsft rctl rmet; more likely as first member) and S-/C-/A- chorded keys and groups, two fifths derived from another sequence (chord respelled with the bare key and back, a modifier put in front, same beginning / extension, modifiers dropped), all judged by the parser-half oracle; the first accepted table is typed under 2 (mode, leader) combinations with sequence-backtrack-modcancel absent / yes and once more with no: every sequence canonically (bare modifier tapped), with every bare modifier kept down to the end, with single bare modifiers kept down over the next 1-2 members, with the modifier of one chorded member released only after the next member, with an unrelated modifier pressed before the leader and released after the first press / a random press / everything, and both together; each typing the documented rule decides is run complete, cut after every (first two typings) or one random press + foreign key, and with one position stretched to T-1 / T / T+1; typings that match nothing under the configured setting must fire no virtual key. OS auto-repeat events (both families, from their own random stream so that the scenarios above are the same with and without them): each of the first two typings / orderings of a sequence (the first three in the modifier family; one in three of the others) is typed once more completely with one typed press other than the completing one (even odds: the last such press, else any) kept down and repeated 1-3 times starting 0-2 ticks after the press was consumed, 1-2 ticks apart, before anything else is typed, and in two of three cases one stray repeat event just before a random press: of a key that is never pressed, of the released leader key, of a typed key already released again, or of the unrelated modifier held since before the leader; the first two typings also get one failing variant with repeats (even odds: cut after a random press >= 1 + foreign key, or one position stretched to T-1 / T / T+1; the held key is then the one down during the silence half of the time). A repeat scenario whose events do not fit the prescribed schedule (every press and the foreign key consumed < T after the previous press, repeats of the held key over >= 2 ticks before the timeout could elapse) is rebuilt with minimal gaps or dropped. Not added for orderings in the two known overlap-group structures nor for sequences with a right-hand modifier member. Echo family (general family, own random stream): under each typed (mode, leader) combination other than always-on the table is configured once more with one of 5 virtual-key action shapes that output typed keys (each macro shape 1 in 4, key and multi action 1 in 8 each; all 5 for the fixed tables): (macro W k1..kn) with every character key of the sequence, (macro k W), (macro W 15 k), k, (multi W k), k = last listed character key 3 in 4, else any; the first two orderings of every sequence (outside the two known overlap-group structures) are typed completely twice, the keys still down after the completing press held for one of 6/12/30/60 ticks and for one of 0/1/2/3/6/12/30/60 ticks (0-3 when the ordering ends in an O-(..) group), in tables without O-(..) groups with even odds rolled over (each character key released after the next press instead of before). Non-trivial = table reached the parser; distinct = (accept/reject, table shape), (mode, leader, [modcancel,] table shape) typed and (echo action shape, mode, leader, table shape).".into()
     }
     fn assumptions(&self) -> Vec<String> {
         vec![
@@ -1277,6 +1331,9 @@ impl Check for C12Check {
             "auto-repeat events: a repeat event is not a typed key (it does not advance, fail or prolong a sequence; the unchanged tree and the comment in key_repeat.rs agree, the statement speaks of keys typed). 'In progress' for the hidden-mode clause is decided by the model, not read from kanata: from the tick that consumed the press of the held key (itself after the leader was consumed, or the first key with always-on) until the completing press / the foreign key / T-2 ticks after the last press".into(),
             "auto-repeat events, visible-backspaced: the typed keys are down at the OS and the unchanged tree forwards their repeats ('key repeat does not interact with the sequence'); the statement does not say whether it should, so forwarded / not forwarded is only counted, and 'one backspace per character typed' is not judged for a completing typing in which a repeat of a non-modifier key reached the OS (more characters are on the screen than were typed); repeats of modifier keys do not type characters and leave the count judged. Repeats of the unrelated modifier held since before the leader (down at the OS in every mode) are only counted: the hidden modes drop them, visible-backspaced forwards them, the statement decides neither".into(),
             "auto-repeat events are only placed while the sequence is in progress (or, stray ones, before the first key with always-on); repeats of keys still held when the sequence completes or fails are C14's subject".into(),
+            "echo family: 'taps its virtual key exactly once' is read at the OS as: what the action writes when the virtual key is tapped once on its own (macro k1 k2 = taps of k1, k2 in that order; a key or multi action = its keys pressed and released) arrives there completely and once, whether or not the same keys were typed in the sequence and are still physically down; presses are compared from the tick after the completing press was consumed up to the probe key; releases only as 'every such press is released again before the probe' (visible-backspaced releases the typed keys that are still down at the OS in that window as well)".into(),
+            "echo family, restrictions: not typed with sequence-always-on (the virtual key's output would itself be sequence input); an ordering ending in an O-(..) group is held at most 3 ticks after the completing press (where another sequence begins with the same keys the group is only decided when its keys are released, so a long hold is a timeout; the statement does not say when a group counts as typed); roll-over only in tables without O-(..) groups (rolled-over plain keys are an overlap); modifier keys are never echoed and not watched. Modifier-family tables are not run with echo actions".into(),
+            "echo family, known finding on the unchanged tree (own signature, judged live everywhere else): a key / multi action is pressed in the tick right after completion; if its key was typed and is still physically down in the completion tick (always so for the completing key) it is taken for an old press and never reaches the OS. The known signature is only given when the action is k or (multi W k), k is physically down in the completion tick and exactly k is missing from the presses; with action k there is no witness, so 'the sequence did not fire at all' cannot be told apart in that one shape".into(),
             "timeout boundary per DESIGN appendix A: a press arriving < T ticks after the previous press (or the leader) continues, at >= T the mode has ended".into(),
         ]
     }
@@ -1327,6 +1384,25 @@ impl Check for C12Check {
             ("repeats_of_released_leader_key_silent", 6_000),
             ("repeats_of_released_typed_key_silent", 8_000),
             ("repeat_events_of_unrelated_held_modifier", 300),
+            // echo family: every action shape ran, typed keys were written while physically held
+            ("echo_configs", 4000),
+            ("echo_scenarios", 30_000),
+            ("echo_scenarios:macro-of-all-typed-keys", 5000),
+            ("echo_scenarios:macro-typed-key-first", 5000),
+            ("echo_scenarios:macro-typed-key-delayed", 5000),
+            ("echo_scenarios:key-action", 2500),
+            ("echo_scenarios:multi-action", 2500),
+            ("echo_scenarios_completing_key_held_6_to_60_ticks", 20_000),
+            ("echo_scenarios_typed_with_rollover", 1500),
+            ("echo_completions_output_complete_hidden_modes", 12_000),
+            ("echo_completions_output_complete_visible_mode", 6000),
+            ("echo_typed_key_output_while_held_hidden_modes", 6000),
+            ("echo_typed_key_output_while_held_visible_mode", 3000),
+            ("echo_typed_key_output_while_held:macro-of-all-typed-keys", 3000),
+            ("echo_typed_key_output_while_held:macro-typed-key-first", 3000),
+            ("echo_typed_key_output_while_held:macro-typed-key-delayed", 1500),
+            ("echo_hidden_completions_without_press", 12_000),
+            ("echo_visible_completions_backspaced", 6000),
         ]
     }
 }
